@@ -154,6 +154,20 @@ pub fn methods(thorough: bool) -> Vec<Method> {
             out.push(Method { rust_name: format!("sp_{n}"), rename: None, params, explicit_lifetimes: false, kind, out: if kind == Kind::Oneway { Out::Unit } else { outs[n % 3] } });
         }
     }
+    // arguments spelled as raw identifiers: the name is the identifier without its `r#` prefix
+    let raw = ["r#type", "r#ref", "r#match", "r#fn", "r#async", "r#struct", "r#mod", "r#use"];
+    for (ri, name) in raw.iter().enumerate() {
+        for (ti, t) in tys.iter().enumerate() {
+            let n = k;
+            k += 1;
+            let kind = kinds[(ri + ti) % 3];
+            let mut params = vec![(name.to_string(), *t, if (ri + ti) % 4 == 3 { Some("wire-Name".to_string()) } else { None })];
+            if (ri + ti) % 2 == 1 {
+                params.push((raw[(ri + 3) % raw.len()].to_string(), Ty::OptI64, None));
+            }
+            out.push(Method { rust_name: format!("raw_{n}"), rename: None, params, explicit_lifetimes: false, kind, out: if kind == Kind::Oneway { Out::Unit } else { outs[n % 3] } });
+        }
+    }
     out
 }
 
@@ -226,7 +240,7 @@ pub fn generate(thorough: bool) -> (String, usize) {
                 idx /= v.len();
                 args.push(rust.to_string());
                 if let Some(j) = json {
-                    members.push(format!("{:?}: {j}", p.2.clone().unwrap_or_else(|| p.0.clone())));
+                    members.push(format!("{:?}: {j}", p.2.clone().unwrap_or_else(|| p.0.trim_start_matches("r#").to_string())));
                 }
             }
             let mut expect = format!("\"method\": {path:?}");
